@@ -493,74 +493,200 @@ def cm_closure(cmi, name, seen=None):
     return out
 
 
+class _TableV:
+    """abstract value of ClassManager's section table (keyed by TypeMapItem)"""
+
+    def __repr__(self):
+        return "<section table>"
+
+
+class _SideV:
+    def __init__(self, member):
+        self.member = member
+
+    def __repr__(self):
+        return "<side table of %s>" % self.member
+
+
+class _CMSem(DexInterp):
+    """evaluates a ClassManager method with its self-helpers executed: every access to the section table / the
+    per-section side tables is logged with the section it belongs to and the key used; exception handlers are
+    executed too (may-analysis) so that lookups made on a fallback path are seen"""
+
+    def __init__(self, *a, cmi=None, **k):
+        super().__init__(*a, **k)
+        self.cmi = cmi
+        self.sections = set()
+        self.lookups = []   # (section, how, key)
+
+    def _h_subscript(self, it, base, k, e, func):
+        if isinstance(base, _TableV):
+            kk = k
+            if isinstance(kk, EnumVal) and kk.enum == self.cmi.enum_cls.name:
+                self.sections.add(kk.member)
+                return Sym("section", kk.member)
+            self.sections.add("ANY")
+            return Sym("section", "ANY")
+        if isinstance(base, Sym) and base.op == "section":
+            self.lookups.append((base.args[0], "[]", k))
+            return Sym("sectionitem", base.args[0], "[]", k)
+        if isinstance(base, _SideV):
+            self.sections.add(base.member)
+            self.lookups.append((base.member, "side[]", k))
+            return Sym("sideitem", base.member, k)
+        return super()._h_subscript(it, base, k, e, func)
+
+    def _h_method(self, it, recv, name, args, kwargs, e, func):
+        if isinstance(recv, Sym) and recv.op == "section":
+            self.lookups.append((recv.args[0], name, args[0] if args else None))
+            return Sym("sectionitem", recv.args[0], name, *args)
+        if isinstance(recv, _SideV):
+            self.sections.add(recv.member)
+            if name == "get" and args:
+                self.lookups.append((recv.member, "side.get", args[0]))
+                return Sym("sideitem", recv.member, args[0])
+            return Sym("sidecall", recv.member, name, *args)
+        if isinstance(recv, _TableV):
+            self.sections.add("ANY")
+            return Sym("section", "ANY")
+        return super()._h_method(it, recv, name, args, kwargs, e, func)
+
+    def exec_try(self, s, env, func):
+        from ..absint import _Return
+        pending = None
+        try:
+            self.exec_block(s.body, env, func)
+        except _Return as r:
+            pending = r
+        except Raised:
+            pending = None
+        # handlers as alternative continuations (their effects on the access log are what matters)
+        for h in s.handlers:
+            env2 = dict(env)
+            if h.name:
+                env2[h.name] = Sym("exc", "caught")
+            try:
+                self.exec_block(h.body, env2, func)
+                for k_, v_ in env2.items():
+                    env.setdefault(k_, v_)
+            except (_Return, Raised):
+                pass
+        if pending is not None:
+            raise pending
+        self.exec_block(s.orelse, env, func)
+        self.exec_block(s.finalbody, env, func)
+
+
+def cm_semantics(md, cmi, acc):
+    """-> (sections read, lookups [(section, how, key)], returned values) of ClassManager.<acc>(params...) over all abstract paths"""
+    cm_cls = cmi.cls
+    f = cm_cls.lookup(acc)
+    if f is None:
+        raise AnalysisError("anchor vanished: ClassManager.%s" % acc)
+    params = f.params()[1:]
+    secs, looks, vals = set(), [], []
+
+    def run(asg):
+        it = _CMSem(md.repo, md.folder, asg=dict(asg), inline_module=None, cmi=cmi)
+        slf = Obj(cm_cls, "self")
+        slf.attrs[cmi.mangled(cmi.table_attr)] = _TableV()
+        for a_, mem in cmi.side_attrs.items():
+            slf.attrs[cmi.mangled(a_)] = _SideV(mem)
+        try:
+            v = it.call_function(f, [Sym("param", p) for p in params], recv=slf)
+        finally:
+            secs.update(it.sections)
+            looks.extend(it.lookups)
+        return v
+
+    n = 0
+    for asg, r in explore(run, max_paths=512):
+        if isinstance(r, Raised):
+            continue
+        n += 1
+        vals.append(r)
+    if not n:
+        raise AnalysisError("ClassManager.%s raises on every abstract path" % acc)
+    return f, params, secs, looks, vals
+
+
 def check_resolvers(ctx, md):
     cmi = CMInfo(md.repo, md.folder)
     cm_cls = cmi.cls
-    # (a) section attribution
-    for ref, (acc, secs) in RESOLVER.items():
-        f = cm_cls.lookup(acc)
-        ctx.require(f is not None, "anchor vanished: ClassManager.%s" % acc)
+    sem = {}
+
+    def semantics(acc):
+        if acc not in sem:
+            sem[acc] = cm_semantics(md, cmi, acc)
+        return sem[acc]
+
+    # (a) section attribution: the sections an accessor (with the helpers it calls on self) really looks into
+    for ref, (acc, want) in RESOLVER.items():
+        f, params, got, looks, vals = semantics(acc)
         ctx.analysed(f)
-        got = cm_closure(cmi, acc)
-        ctx.check("resolver/section", "ClassManager.%s" % acc, got == secs, f, "ClassManager.%s sections" % acc,
-                  "ClassManager.%s (resolver of %s) reads sections %s; the format resolves %s through %s" % (
-                      acc, ref, sorted(got), ref, sorted(secs)),
+        extra = sorted(got - want)
+        missing = sorted(want - got)
+        if "ANY" in got:
+            raise AnalysisError("ClassManager.%s indexes the section table with a key that is not a constant map type" % acc)
+        if missing and not extra:
+            raise AnalysisError("ClassManager.%s: no lookup in section %s was found by the abstract evaluation (shape outside the fragment)" % (acc, missing))
+        ctx.check("resolver/section", "ClassManager.%s" % acc, not extra, f, "ClassManager.%s sections" % acc,
+                  "ClassManager.%s (resolver of %s) looks into section %s; the format resolves %s through %s" % (
+                      acc, ref, extra, ref, sorted(want)),
                   detail="%s reads %s" % (acc, sorted(got)))
         ctx.count("resolvers")
     # (b) the key of the primary lookup is the accessor's argument
     for acc, sec in PRIMARY.items():
-        f = cm_cls.lookup(acc)
-        ctx.require(f is not None, "anchor vanished: ClassManager.%s" % acc)
+        f, params, got, looks, vals = semantics(acc)
         ctx.analysed(f)
-        params = f.params()
-        ctx.require(len(params) >= 2, "ClassManager.%s takes no index" % acc)
-        keys = primary_keys(cmi, f, sec)
-        if not keys:
-            # the accessor does not touch its section directly: a violation unless a ClassManager helper does it for it
-            ctx.require(sec not in cm_closure(cmi, acc),
-                        "ClassManager.%s: lookup in section %s moved into a helper (shape outside the fragment)" % (acc, sec))
-            ctx.check("resolver/section", "ClassManager.%s" % acc, False, f, "ClassManager.%s sections" % acc,
-                      "ClassManager.%s must look its argument up in section %s; it reads %s" % (acc, sec, sorted(cm_closure(cmi, acc))))
-            continue
-        for node, key in keys:
-            key = resolve_alias(f, key)
-            if key is not None and not isinstance(key, ast.Name) and not any(isinstance(x, ast.Name) and x.id == params[1] for x in ast.walk(key)) \
-                    and any(isinstance(x, ast.Call) for x in ast.walk(key)):
-                raise AnalysisError("ClassManager.%s: lookup key %s is computed by a call (outside the fragment)" % (acc, ast.unparse(key)[:60]))
-            if key is None:
+        ctx.require(len(params) >= 1, "ClassManager.%s takes no index" % acc)
+        mine = [(how, key) for s_, how, key in looks if s_ == sec]
+        if not mine:
+            if sec in got or not got:
                 raise AnalysisError("ClassManager.%s: section %s is used without a keyed lookup (shape outside the fragment)" % (acc, sec))
-            good = isinstance(key, ast.Name) and key.id == params[1] and not reassigned(f, params[1])
-            ctx.check("resolver/key", "ClassManager.%s" % acc, good, f, node,
-                      "ClassManager.%s looks section %s up with %s, not with its argument %s" % (
-                          acc, sec, ast.unparse(key) if key is not None else "nothing", params[1]),
-                      node=node, detail="%s[%s]" % (sec, params[1]))
-    # (c) list roles of get_proto / get_field / get_method
+            ctx.check("resolver/section", "ClassManager.%s" % acc, False, f, "ClassManager.%s sections" % acc,
+                      "ClassManager.%s must look its argument up in section %s; it looks into %s" % (acc, sec, sorted(got)))
+            continue
+        want_key = Sym("param", params[0])
+        for how, key in mine:
+            if key == want_key:
+                ctx.check("resolver/key", "ClassManager.%s" % acc, True, f, "%s lookup key" % acc, "", detail="%s[%s]" % (sec, params[0]))
+                continue
+            op = []
+            pk = prov(key, opaque=op) if key is not None else set()
+            if key is None or op or not any(leaf == ("param", params[0]) for leaf, ch in pk):
+                raise AnalysisError("ClassManager.%s: lookup key %s in section %s is outside the fragment" % (acc, show(key)[:60], sec))
+            ctx.check("resolver/key", "ClassManager.%s" % acc, False, f, "%s lookup key %s" % (acc, show(key)[:60]),
+                      "ClassManager.%s looks section %s up with %s, not with its argument %s" % (acc, sec, show(key)[:80], params[0]))
+    # (c) list roles of get_proto / get_field / get_method, from the returned values
     roles = {}
-    f = cm_cls.lookup("get_proto")
-    ret = [n for n in walk_no_nested(f.node) if isinstance(n, ast.Return) and n.value is not None]
-    if len(ret) == 1 and isinstance(ret[0].value, (ast.List, ast.Tuple)):
-        rl = []
-        for e in ret[0].value.elts:
-            if isinstance(e, ast.Call) and isinstance(e.func, ast.Attribute) and not e.args:
-                role = GETTERS["ProtoIdItem"].get(e.func.attr)
-                rl.append(role[1] if role and role[0] == "R" else None)
-            else:
-                rl.append(None)
-        if None in rl:
+    f, params, got, looks, vals = semantics("get_proto")
+    rl = None
+    for v in vals:
+        cur = []
+        if not isinstance(v, (list, tuple)):
+            raise AnalysisError("ClassManager.get_proto returns %s, not a list display (shape outside the fragment)" % show(v)[:60])
+        for el in v:
+            g = el.args[0].args[-1] if isinstance(el, Sym) and el.op == "call" and el.args and isinstance(el.args[0], Sym) and el.args[0].op == "attr" \
+                and len(el.args) == 1 else None
+            role = GETTERS["ProtoIdItem"].get(g) if isinstance(g, str) else None
+            cur.append(role[1] if role and role[0] == "R" else None)
+        if None in cur:
             raise AnalysisError("ClassManager.get_proto: returned elements are not plain ProtoIdItem role getters (shape outside the fragment)")
-        roles["get_proto"] = rl
-    else:
-        raise AnalysisError("ClassManager.get_proto: expected a single return of a list display")
-    ctx.check("resolver/list", "ClassManager.get_proto", set(roles["get_proto"]) == {"parameters_off", "return_type_idx"}, f,
-              "ClassManager.get_proto result", "get_proto must return the resolved parameter list and return type of the proto item; returns roles %s" % roles["get_proto"],
-              detail="get_proto -> %s" % roles["get_proto"])
-    for acc, ref_acc, cname in (("get_field", "get_field_ref", "FieldIdItem"), ("get_method", "get_method_ref", "MethodIdItem")):
-        f = cm_cls.lookup(acc)
-        src_ok = False
-        for n in walk_no_nested(f.node):
-            if isinstance(n, ast.Call) and isinstance(n.func, ast.Attribute) and n.func.attr == "get_list":
-                src_ok = True
-        ctx.require(src_ok, "ClassManager.%s no longer returns <id item>.get_list()" % acc)
+        if rl is not None and rl != cur:
+            raise AnalysisError("ClassManager.get_proto returns differently ordered lists on different paths")
+        rl = cur
+    roles["get_proto"] = rl
+    ctx.check("resolver/list", "ClassManager.get_proto", set(rl) == {"parameters_off", "return_type_idx"} and len(rl) == 2, f,
+              "ClassManager.get_proto result", "get_proto must return the resolved parameter list and return type of the proto item; returns roles %s" % rl,
+              detail="get_proto -> %s" % rl)
+    for acc, cname in (("get_field", "FieldIdItem"), ("get_method", "MethodIdItem")):
+        f, params, got, looks, vals = semantics(acc)
+        for v in vals:
+            ok = isinstance(v, Sym) and v.op == "call" and len(v.args) == 1 and isinstance(v.args[0], Sym) and v.args[0].op == "attr" \
+                and v.args[0].args[-1] == "get_list"
+            if not ok:
+                raise AnalysisError("ClassManager.%s no longer returns <id item>.get_list() (%s)" % (acc, show(v)[:60]))
         lst = GETTERS[cname]["get_list"][1]
         roles[acc] = [e[1] for e in lst]
     return roles
